@@ -2,6 +2,7 @@
 
 use std::marker::PhantomData;
 use std::ops::Range;
+use std::ptr::NonNull;
 use std::sync::Arc;
 
 use rten_base::byte_cast::FromByteArray;
@@ -173,6 +174,13 @@ unsafe impl<T> Storage for ArcSlice<T> {
     }
 
     fn as_ptr(&self) -> *const Self::Elem {
+        // An empty slice can reference storage which has not allocated, or a
+        // slice outside the storage (see `ArcSlice::new`). The storage's data
+        // pointer may not be aligned for `T` in that case.
+        if self.len == 0 {
+            return NonNull::dangling().as_ptr();
+        }
+
         // Safety: We checked the data range was in-bounds when the ArcSlice
         // was constructed.
         unsafe {
@@ -237,6 +245,35 @@ mod tests {
         // Try with a zero-sized type.
         let zst_slice = &[(), ()];
         assert!(ArcSlice::new(storage.clone(), zst_slice).is_none());
+    }
+
+    #[test]
+    fn test_empty_arc_slice_is_aligned() {
+        use rten_tensor::Storage;
+
+        let empty: &[i32] = &[];
+
+        // Storage that has not allocated. The dangling pointer of the `Vec<u8>`
+        // is not aligned for `i32`.
+        let storage = Arc::new(ConstantStorage::Buffer(Vec::new()));
+        let slice = ArcSlice::new(storage, empty).unwrap();
+        assert!(slice.as_ptr().is_aligned());
+        let tensor = ArcTensorView::from_data(&[0, 3], slice);
+        assert_eq!(tensor.data().unwrap(), empty);
+        assert_eq!(tensor.view().to_vec(), empty);
+
+        // Non-empty storage whose data is not aligned for `i32`.
+        static BYTES: [u8; 8] = [0; 8];
+        let offset = if (BYTES.as_ptr() as usize).is_multiple_of(align_of::<i32>()) {
+            1
+        } else {
+            0
+        };
+        let storage = Arc::new(ConstantStorage::StaticSlice(&BYTES[offset..]));
+        let slice = ArcSlice::new(storage, empty).unwrap();
+        assert!(slice.as_ptr().is_aligned());
+        let tensor = ArcTensorView::from_data(&[0], slice);
+        assert_eq!(tensor.data().unwrap(), empty);
     }
 
     #[test]
